@@ -421,7 +421,7 @@ fn curve_item(rep: &mut Report, rng: &mut Rng, args: &Args, ad: &dyn CAd) {
     pts.push((neg_pt(ad, &g), true));
     // 753-bit curves over extension fields are slow in the harness double-and-add: scale the budget
     let weight = (fi.bits / 64 + 1) * fi.dim;
-    let n = (bud(args, 1600, 48000) / weight).max(4);
+    let n = (bud(args, 1600, 20000) / weight).max(4);
     for _ in 0..n {
         let k = rand_scalar(rng, &ci.r);
         let Ok(p) = ad.mul(&g, &k) else {
